@@ -33,7 +33,7 @@ Qed.
 Section cover.
 Variable draw : nat → hp → value.
 
-Lemma ensure_go_other sp : ∀ v k n, n ∉ hnames sp → (ensure_go draw sp v k).1 !! n = v !! n.
+Lemma ensure_go_other sp : ∀ v k n, n ∉ hnames sp → (ensure_go0 draw sp v k).1 !! n = v !! n.
 Proof.
   induction sp as [|h r IH]; intros v k n Hn; cbn; [done|].
   assert (Hr : n ∉ hnames r). { intros ?. apply Hn. by right. }
@@ -45,14 +45,14 @@ Qed.
 
 (* exactly the active entries of the space carry a value afterwards *)
 Theorem ensure_covers sp : ∀ pre v k, wo pre sp →
-  let v' := (ensure_go draw sp v k).1 in
+  let v' := (ensure_go0 draw sp v k).1 in
   ∀ h, h ∈ sp → (is_Some (v' !! h_name h) ↔ conds_active v' (h_conds h) = true).
 Proof.
   induction sp as [|h r IH]; intros pre v k Hwo v' h0 Hin; [by apply elem_of_nil in Hin|].
   pose proof (wo_names _ _ Hwo) as [Hpre Hnd]. cbn in Hnd. apply NoDup_cons in Hnd as [Hhn Hnd].
   destruct Hwo as (Hpn & Hh & Hwo).
   (* the conditions of h only look at names that later steps do not touch *)
-  assert (Hstable : ∀ w kk, conds_active (ensure_go draw r w kk).1 (h_conds h) = conds_active w (h_conds h)).
+  assert (Hstable : ∀ w kk, conds_active (ensure_go0 draw r w kk).1 (h_conds h) = conds_active w (h_conds h)).
   { intros w kk. apply conds_active_agree. intros c Hc. apply ensure_go_other.
     intros Hinr. destruct (wo_names _ _ Hwo) as [Hr _]. apply (Hr _ Hinr). right. apply Hpn.
     unfold cnames. by apply elem_of_list_fmap_1. }
@@ -73,5 +73,31 @@ Proof.
   - (* a later entry: induction hypothesis on whatever map the head step produced *)
     subst v'. cbn. destruct (conds_active v (h_conds h)); [destruct (v !! h_name h)|]; by eapply IH.
 Qed.
+
+(* with distinct names the same-name guard of the source never fires: ensure_go = ensure_go0 *)
+Lemma name_active_unique all v h : NoDup (hnames all) → h ∈ all → name_active all v (h_name h) = conds_active v (h_conds h).
+Proof.
+  unfold name_active. induction all as [|x r IH]; intros Hnd Hin; [by apply elem_of_nil in Hin|].
+  cbn in Hnd. apply NoDup_cons in Hnd as [Hx Hnd]. cbn [existsb].
+  apply elem_of_cons in Hin as [->|Hin].
+  - rewrite bool_decide_eq_true_2 by done. cbn. destruct (conds_active v (h_conds x)); [done|]. cbn.
+    apply not_true_is_false. intros He. apply existsb_exists in He as (y & Hy & Hyy). apply andb_true_iff in Hyy as [Hn _].
+    apply bool_decide_eq_true in Hn. apply Hx. rewrite <-Hn. apply elem_of_list_fmap_1. by apply elem_of_list_In.
+  - rewrite bool_decide_eq_false_2; [cbn; by apply IH|]. intros He. apply Hx. rewrite He. by apply elem_of_list_fmap_1.
+Qed.
+Lemma ensure_go_distinct all sp : NoDup (hnames all) → (∀ h, h ∈ sp → h ∈ all) → ∀ v k, ensure_go draw all sp v k = ensure_go0 draw sp v k.
+Proof.
+  intros Hnd. induction sp as [|h r IH]; intros Hsub v k; [done|]. cbn.
+  assert (Hr : ∀ h', h' ∈ r → h' ∈ all) by (intros h' Hh'; apply Hsub; by right).
+  destruct (conds_active v (h_conds h)) eqn:Ea.
+  - destruct (v !! h_name h); by rewrite IH.
+  - rewrite (name_active_unique all v h Hnd) by (apply Hsub; by left). rewrite Ea. by rewrite IH.
+Qed.
+Theorem ensure_covers' sp v k : wo [] sp →
+  let v' := (ensure_go draw sp sp v k).1 in
+  ∀ h, h ∈ sp → (is_Some (v' !! h_name h) ↔ conds_active v' (h_conds h) = true).
+Proof.
+  intros Hwo. rewrite ensure_go_distinct; [by apply (ensure_covers sp [] v k Hwo)|by apply (wo_names sp [])|done].
+Qed.
 End cover.
-Print Assumptions ensure_covers.
+Print Assumptions ensure_covers'.
